@@ -66,6 +66,32 @@ func decodeObs(s string) string {
 	return fmt.Sprintf("OK %s %d %d %d %s %s", posTok(pos), turn, np, fm, codes(enc), again)
 }
 
+func safeParseMove(s string) (res string) {
+	defer func() {
+		if r := recover(); r != nil {
+			res = "CRASH"
+		}
+	}()
+	m, err := board.ParseMove(s)
+	if err != nil {
+		return "ERR"
+	}
+	return fmt.Sprintf("OK %d %d %d", m.From, m.To, m.Promotion)
+}
+
+func safeParseSquare(s string) (res string) {
+	defer func() {
+		if r := recover(); r != nil {
+			res = "CRASH"
+		}
+	}()
+	sq, err := board.ParseSquareStr(s)
+	if err != nil {
+		return "ERR"
+	}
+	return fmt.Sprintf("OK %d", sq)
+}
+
 func randomFEN(c *caseCtx) string {
 	sts := genStates(c, 40)
 	s := sts[c.r.Intn(len(sts))]
@@ -144,6 +170,15 @@ func casesFen(c *caseCtx) {
 		}
 		c.emit("engfen %s :: %s => %s", codes(start), strings.Join(ops, " "), strings.Join(obs, " | "))
 	}
+}
+
+func safeEngineMove(ctx context.Context, e *engine.Engine, s string) (err error, crashed bool) {
+	defer func() {
+		if r := recover(); r != nil {
+			crashed = true
+		}
+	}()
+	return e.Move(ctx, s), false
 }
 
 func uciMove(m board.Move) string {
@@ -247,19 +282,20 @@ func casesText(c *caseCtx) {
 			}
 		}
 		s := string(rs)
-		m, err := board.ParseMove(s)
-		if err != nil {
-			c.emit("parsemove %s => ERR", codes(s))
-		} else {
-			c.emit("parsemove %s => OK %d %d %d", codes(s), m.From, m.To, m.Promotion)
-		}
+		c.emit("parsemove %s => %s", codes(s), safeParseMove(s))
 		if n >= 2 {
-			sq, err := board.ParseSquareStr(string(rs[:2]))
-			if err != nil {
-				c.emit("parsesq %s => ERR", codes(string(rs[:2])))
-			} else {
-				c.emit("parsesq %s => OK %d", codes(string(rs[:2])), sq)
+			c.emit("parsesq %s => %s", codes(string(rs[:2])), safeParseSquare(string(rs[:2])))
+		}
+		// byte length and rune count differ for multi-byte characters
+		if i%4 == 0 {
+			multi := []string{"é", "€", "😀", "ｅ", "٢", "\xff", "\xc3"}
+			k := c.r.Intn(len(rs) + 1)
+			t := string(rs[:k]) + multi[c.r.Intn(len(multi))] + string(rs[k:])
+			if c.r.Intn(2) == 0 && len(rs) > 2 {
+				t = string(rs[:2]) + multi[c.r.Intn(len(multi))]
 			}
+			c.emit("parsemove %s => %s", codes(t), safeParseMove(t))
+			c.emit("parsesq %s => %s", codes(t), safeParseSquare(t))
 		}
 	}
 	// Engine.Move: accepted iff the string denotes a legal move; rejected input leaves the state unchanged
@@ -283,11 +319,15 @@ func casesText(c *caseCtx) {
 			}
 			cand = append(cand, s)
 		}
-		cand = append(cand, "", "e2", "e2e4e5q", "0000", "E2E4", "e7e8", "e7e8Q")
+		cand = append(cand, "", "e2", "e2e4e5q", "0000", "E2E4", "e7e8", "e7e8Q", "e2é", "e2€", "😀", "e2e4é", "é2e4")
 		for _, s := range cand {
 			before := boardObs(board.NewZobristTable(0), e.Board(), true)
 			beforeFen := e.Position()
-			err := e.Move(ctx, s)
+			err, crashed := safeEngineMove(ctx, e, s)
+			if crashed {
+				c.emit("engmove %s %s => CRASH", codes(start), codes(s))
+				break
+			}
 			if err != nil {
 				after := boardObs(board.NewZobristTable(0), e.Board(), true)
 				same := b01(after == before && e.Position() == beforeFen)
